@@ -131,7 +131,7 @@ pub fn to_config(c: &Cfg) -> HybridConfig {
 impl Prop for C08 {
     type Case = HybCase;
     fn id(&self) -> &'static str { "C08" }
-    fn expected_counters(&self) -> Vec<&'static str> { vec!["probe.non_monotone_lineage", "probe.exclusive_group_lineage", "fault.budget_expired_by_clock_step", "fault.clock_jump_at_reading", "probe.fault_position_changed_result_kind", "fault.compile_deadline", "fault.compile_node_budget", "fault.topk_budget_expired", "probe.pipeline_derived_facts_evaluated"] }
+    fn expected_counters(&self) -> Vec<&'static str> { vec!["probe.materialisation_evaluated_again_under_another_threshold", "probe.non_monotone_lineage", "probe.exclusive_group_lineage", "fault.budget_expired_by_clock_step", "fault.clock_jump_at_reading", "probe.fault_position_changed_result_kind", "fault.compile_deadline", "fault.compile_node_budget", "fault.topk_budget_expired", "probe.pipeline_derived_facts_evaluated"] }
     fn level(&self) -> &'static str { "fault_enumeration" }
     fn budget(&self, tier: Tier) -> Budget { match tier { Tier::Quick => Budget { runs: 12_000, wall_s: 60, recheck: 30 }, Tier::Thorough => Budget { runs: 400_000, wall_s: 1000, recheck: 100 } } }
     fn hash_seed(&self, c: &HybCase) -> u64 { c.hash_seed }
@@ -361,6 +361,22 @@ fn exec_pipeline(c: &HybCase, p: &Pipeline, ctx: &mut Ctx) -> Option<Violation> 
         Some((out, reads, jumped))
     };
     let Some((r0, reads, _)) = run(c.step_ns, 0) else { ctx.hit("pipeline_build_rejected_skipped"); return None };
+    // ---- the retained materialisation is asked again under a second configuration (another threshold): each answer is judged
+    // against the threshold of the call that produced it
+    {
+        let thr2 = if c.cfg.threshold < 0.5 { 0.5 + c.cfg.threshold * 0.9 } else { c.cfg.threshold * 0.4 };
+        let mut cfg2 = cfg.clone(); cfg2.threshold = thr2;
+        if cfg2.validate().is_ok() {
+            if let Some((mut re, snap)) = build() {
+                kolibrie_verif_rt::hybrid_clock::install(c.step_ns, 0);
+                let out = re.infer_new_facts_with_hybrid(snap, &cfg);
+                let second: Vec<(Fact, HybridProbabilityResult)> = match &out { Ok((_, _, mat)) => { let d = re.dictionary.read().unwrap(); mat.new_facts.iter().map(|t| ((d.decode(t.subject).unwrap_or("?").to_string(), d.decode(t.predicate).unwrap_or("?").to_string(), d.decode(t.object).unwrap_or("?").to_string()), mat.evaluate(t, &cfg2))).collect() } Err(_) => vec![] };
+                kolibrie_verif_rt::hybrid_clock::uninstall();
+                for (f, r) in &second { let pstar = prob.get(f).copied().unwrap_or(0.0); if let Some(mut v) = judge(r, pstar, thr2) { v.detail = format!("LineageMaterialization::evaluate asked again with threshold {} after infer_new_facts_with_hybrid at threshold {}: derived fact {:?}: {} [{:?}]", thr2, c.cfg.threshold, f, v.detail, r.reason()); v.class = format!("pipeline-{}", v.class); return Some(v); } }
+                if !second.is_empty() { ctx.hit("probe.materialisation_evaluated_again_under_another_threshold"); }
+            }
+        }
+    }
     let judge_all = |res: &Vec<(Fact, HybridProbabilityResult)>, tag: &str| -> Option<Violation> {
         for (f, r) in res { let pstar = prob.get(f).copied().unwrap_or(0.0); if let Some(mut v) = judge(r, pstar, c.cfg.threshold) { v.detail = format!("infer_new_facts_with_hybrid, {}: derived fact {:?}: {} [{:?}]", tag, f, v.detail, r.reason()); v.class = format!("pipeline-{}", v.class); return Some(v); } }
         None
